@@ -287,13 +287,55 @@ pub struct Session {
 }
 
 /// Read until `Disconnected` (or a framing error, which is terminal, or `max_reads`).
+/// A call the application makes on the connection between reads (none of them may influence what reads deliver).
+#[derive(Clone, Debug)]
+pub enum AppOp {
+    /// `handshake()` with an ISI whose version field is the given value
+    Handshake(u8),
+    /// `write()` of the packet this frame decodes to
+    Write(Vec<u8>),
+}
+
+fn app_packet(op: &AppOp, mode: &Mode) -> Option<Result<insim::insim::Isi, insim::Packet>> {
+    match op {
+        AppOp::Handshake(v) => {
+            let mut isi = insim::insim::Isi::default();
+            isi.version = *v;
+            isi.iname = "vp".into();
+            Some(Ok(isi))
+        },
+        AppOp::Write(f) => {
+            let mut b = bytes::BytesMut::from(&f[..]);
+            Codec::new(mode.clone()).decode(&mut b).ok().flatten().map(Err)
+        },
+    }
+}
+
 pub fn run_blocking(mode: &Mode, verify: bool, reads: Vec<ReadStep>, writes: Vec<WriteStep>, max_reads: usize) -> Session {
+    run_blocking_app(mode, verify, reads, writes, max_reads, &[])
+}
+
+/// like run_blocking, with application calls: `(k, op)` is executed before read attempt number k
+pub fn run_blocking_app(mode: &Mode, verify: bool, reads: Vec<ReadStep>, writes: Vec<WriteStep>, max_reads: usize, app: &[(usize, AppOp)]) -> Session {
     let t = Transport::new(reads, writes);
     let mut framed = insim::net::blocking_impl::Framed::new(Box::new(t.clone()), Codec::new(mode.clone()));
     framed.verify_version(verify);
     let mut results = vec![];
     let mut panic = None;
-    for _ in 0..max_reads {
+    for attempt in 0..max_reads {
+        for (_, op) in app.iter().filter(|(k, _)| *k == attempt) {
+            let r = match app_packet(op, mode) {
+                Some(Ok(isi)) => guard(|| framed.handshake(isi).map_err(|e| e.to_string())),
+                Some(Err(p)) => guard(|| framed.write(p).map_err(|e| e.to_string())),
+                None => continue,
+            };
+            if let Err(p) = r {
+                panic = Some(p);
+            }
+        }
+        if panic.is_some() {
+            break;
+        }
         let r = match guard(|| framed.read()) {
             Ok(r) => r,
             Err(p) => {
@@ -318,18 +360,34 @@ pub fn tokio_runtime() -> tokio::runtime::Runtime {
 }
 
 pub fn run_tokio(mode: &Mode, verify: bool, reads: Vec<ReadStep>, writes: Vec<WriteStep>, max_reads: usize) -> Session {
+    run_tokio_app(mode, verify, reads, writes, max_reads, &[])
+}
+
+pub fn run_tokio_app(mode: &Mode, verify: bool, reads: Vec<ReadStep>, writes: Vec<WriteStep>, max_reads: usize, app: &[(usize, AppOp)]) -> Session {
     let t = Transport::new(reads, writes);
     let rt = tokio_runtime();
     let mut results = vec![];
     let mut panic = None;
     let t2 = t.clone();
     let mode = mode.clone();
+    let mode2 = mode.clone();
     let out = guard(|| {
         rt.block_on(async {
             let mut framed = insim::net::tokio_impl::Framed::new(Box::new(t2.clone()), Codec::new(mode));
             framed.verify_version(verify);
             let mut results = vec![];
-            for _ in 0..max_reads {
+            for attempt in 0..max_reads {
+                for (_, op) in app.iter().filter(|(k, _)| *k == attempt) {
+                    match app_packet(op, &mode2) {
+                        Some(Ok(isi)) => {
+                            let _ = framed.handshake(isi, std::time::Duration::from_secs(30)).await;
+                        },
+                        Some(Err(p)) => {
+                            let _ = framed.write(p).await;
+                        },
+                        None => {},
+                    }
+                }
                 let r = framed.read().await;
                 let s = render(&r);
                 t2.push_event(Event::Returned(s.clone()));
@@ -353,7 +411,6 @@ pub fn run_tokio(mode: &Mode, verify: bool, reads: Vec<ReadStep>, writes: Vec<Wr
 /// Reference model of a session: what successive reads must return for this script.
 /// `frame_result(frame)` is the codec's verdict on one complete frame in isolation.
 pub fn model_results(mode: &Mode, verify: bool, reads: &[ReadStep], blocking: bool, max_reads: usize) -> Vec<String> {
-    let codec = Codec::new(mode.clone());
     let mut buf: Vec<u8> = vec![];
     let mut steps = reads.iter();
     let mut out = vec![];
@@ -372,7 +429,8 @@ pub fn model_results(mode: &Mode, verify: bool, reads: &[ReadStep], blocking: bo
                 if buf.len() >= a {
                     let frame: Vec<u8> = buf.drain(..a).collect();
                     let mut b = bytes::BytesMut::from(&frame[..]);
-                    let r = match codec.decode(&mut b) {
+                    // a fresh codec per frame: state a codec might carry between frames cannot leak into the model
+                    let r = match Codec::new(mode.clone()).decode(&mut b) {
                         Ok(Some(p)) => {
                             if verify {
                                 match p.maybe_verify_version_model() {
